@@ -264,6 +264,8 @@ let run_hs_accept kvs _ =
   let o = { a_subprotocols = dec_list (get kvs "subs"); a_skip_verify = (get kvs "skip" = "1"); a_patterns = dec_list (get kvs "pats"); a_mode = mode_of (get kvs "mode") } in
   let res = accept_decide r o in
   let st = int_of_nat res.ar_status in
+  (* a writer that cannot be hijacked: a request that would be upgraded is answered 501 Not Implemented instead, nothing is taken over *)
+  if get_or kvs "nohijack" "0" = "1" && st = 101 then "status=501 hijacked=0 accept=- proto=- ext=- connproto=- co=-" else
   if st = 101 then
     Printf.sprintf "status=101 hijacked=1 accept=%s proto=%s ext=%s connproto=%s co=%s" (hexb res.ar_accept) (hexb res.ar_subproto)
       (match res.ar_copts with Some c -> hexb (render_copts c) | None -> "-") (hexb res.ar_subproto) (co_str res.ar_copts)
